@@ -5,6 +5,7 @@ import (
 	"math"
 	"math/rand"
 	"strconv"
+	"strings"
 
 	ysgo "github.com/remieven/ysgo"
 	"github.com/remieven/ysgo/variable"
@@ -125,24 +126,68 @@ func genBuiltin(r *rand.Rand, tier string) *sx.Node {
 	}
 }
 
+// confusable: a value of another type with the same display form (true / "True", 5 / "5"), or the
+// value a string spells.
+func confusable(v *variable.Value) *variable.Value {
+	switch {
+	case v == nil:
+		return nil
+	case v.Number != nil, v.Boolean != nil:
+		return variable.NewString(v.ToString())
+	case v.String != nil:
+		switch *v.String {
+		case "True", "true":
+			return variable.NewBoolean(true)
+		case "False", "false":
+			return variable.NewBoolean(false)
+		}
+		if f, err := strconv.ParseFloat(*v.String, 64); err == nil {
+			return variable.NewNumber(f)
+		}
+		return variable.NewNumber(0)
+	}
+	return v
+}
+
+var builtinScript = "title: S\n---\nline\n===\n"
+
+// runBuiltin calls the built-in on the function table of one runner: first with arguments of other
+// types that look the same when displayed (a memo keyed by display form would be primed), then with
+// the case's arguments, then with the case's arguments again (the answer must not change).
 func runBuiltin(c *sx.Node) (out *sx.Node) {
 	defer func() {
 		if r := recover(); r != nil {
 			out = sx.Tag("panic")
 		}
 	}()
-	args := []*variable.Value{}
+	args, other := []*variable.Value{}, []*variable.Value{}
 	for _, a := range c.L[2].L {
 		args = append(args, decValue(a))
+		other = append(other, confusable(decValue(a)))
 	}
-	v, err := ysgo.VerifCallBuiltin("seed", c.L[1].Text(), args)
-	switch {
-	case err != nil:
-		return sx.Tag("err")
-	case v == nil:
-		return sx.Tag("nil")
+	name := c.L[1].Text()
+	dr, derr := ysgo.NewDialogueRunner(nil, "seed", strings.NewReader(builtinScript))
+	if derr != nil {
+		return sx.Tag("HARNESS-PANIC", sx.Str("builtin script refused"))
 	}
-	return sx.Tag("val", encValue(v))
+	func() {
+		defer func() { recover() }()
+		dr.VerifCallFunction(name, other)
+	}()
+	enc := func(v *variable.Value, err error) *sx.Node {
+		switch {
+		case err != nil:
+			return sx.Tag("err")
+		case v == nil:
+			return sx.Tag("nil")
+		}
+		return sx.Tag("val", encValue(v))
+	}
+	first := enc(dr.VerifCallFunction(name, args))
+	if second := enc(dr.VerifCallFunction(name, args)); second.String() != first.String() {
+		return sx.Tag("unstable", first, second)
+	}
+	return first
 }
 
 func genFmt(r *rand.Rand, tier string) *sx.Node {
